@@ -153,6 +153,10 @@ def run(ctx):
         own.append(gen.big_request(r, blen - 12))        # WriteNVRAM: 12 bytes of header + fixed parameters
     for blen in [251, 495, 600, 742]:
         own.append(gen.big_request(r, blen - 12, fill=0))   # ... and zero-filled: every continuation fragment starts with zeros
+    # long messages of one repeated byte: continuation fragments that are byte-for-byte equal - with the sequence number
+    # coming round again - are different fragments all the same (7, 9 and 13 fragments)
+    for blen, fill in [(6 * 247 + 100, 0xFF), (8 * 247 + 30, 0x00), (12 * 247 + 5, 0x5A)]:
+        own.append(gen.big_request(r, blen - 12, fill=fill))
     for it in range(len(own) + ctx.scale(160, 1500)):
         cmd = own[it] if it < len(own) else big_commands(r)
         body = cmd.to_frame().hl_packet.serialize()[2:]
